@@ -150,7 +150,9 @@ def gen_env(rng, pf):
         "latency_us": lat_us, "delay": delay, "reward": rng.choice(pf.get("rewards", REWARDS)),
         "fees": {"fixed": rng.choice(pf.get("fixed_fees", [0, 0, 0.01])), "prop": rng.choice([0, 0, 1e-4, 1e-3]),
                  "markup": rng.choice([0, 0.005]) if rate_on else 0.0},
-        "cash": rng.choice(pf.get("cash", [100.0, 1e5, 1e6])),
+        # accounts trading futures (notional per contract up to millions) are funded so that positions stay
+        # far above the broker's documented flattening epsilon of 1e-7 contracts
+        "cash": rng.choice(pf.get("cash", [100.0, 1e5, 1e6])) if not any(c["kind"] == "future" for c in specs) else rng.choice([1e6, 1e7]),
         "space": space, "folds": folds, "markov": markov, "warmup_s": warm,
         "episode_length": None, "sampling_span": None,
         "ts_type": rng.choice(pf.get("ts_types", ["datetime", "datetime", "timestamp"])),
